@@ -678,7 +678,41 @@ def fe_change(rng):
     return "Xd%d" % rng.choice([7, 8, 3])
 
 
+def fe_case_fork(rng):
+    """1-4 handles on 1-3 paths (several per path, a path watched through a hard link); fork; the child calls
+    uv_loop_fork(), is observed, changes files, stops / closes / restarts, closes its loop; the parent goes on"""
+    nh = rng.randint(1, 4)
+    pool = rng.sample([0, 1, 2, 4, 5, 3], rng.randint(1, 3))
+    if rng.random() < 0.4 and 1 in pool:
+        pool.append(6)                                  # d1/l0: the same inode as d0/f0
+    ops = ["I"] * nh
+    for h in range(nh):
+        ops.append("S%d,%d,%d" % (h, rng.randint(1, 3), pool[h % len(pool)] if h < len(pool) else rng.choice(pool)))
+    if rng.random() < 0.5:
+        ops += [rng.choice(["Xw1", "Xw2", "Xm5,420", "Xc7"]), "R"]
+    if rng.random() < 0.2:
+        ops.append("T%d" % rng.randrange(nh))
+    ops += ["O", "Y"]
+
+    def mild():
+        return rng.choice(["Xw1", "Xw2", "Xw5", "Xw6", "Xm1,384", "Xm2,420", "Xm0,493", "Xm4,448", "Xc7", "Xc8", "Xd8", "Xw9"])
+    for _ in range(rng.randint(1, 5)):
+        if rng.random() < 0.25:
+            ops.append(fe_api_op(rng, nh))
+        ops += [mild(), "R"]
+    if rng.random() < 0.5:
+        ops.append("O")
+    ops += ["Z", "P"]
+    for _ in range(rng.randint(1, 3)):
+        ops += [mild(), "R"]
+    ops += ["O", "Z"]
+    behs = [" ".join(fe_api_op(rng, nh) for _ in range(rng.choice([0, 0, 0, 1, 2]))) for _ in range(rng.randint(0, 10))]
+    return "%s ; %s" % (" ".join(ops), " | ".join(behs))
+
+
 def fe_case(rng):
+    if rng.random() < 0.2:
+        return fe_case_fork(rng)
     nh = rng.randint(1, 6)
     hot = rng.choice([0, 1, 1, 6, 4])           # many handles on one path: shared watcher list
     ops = ["I"] * nh
@@ -716,6 +750,10 @@ def fe_walk(case, raw):
     out = []                # canonical implementation tokens
     mtop = []               # model ops, top level
     mbeh = [list(b) for b in behl]
+    cbeh = {}               # behaviours as run in the child (by callback number)
+    child = [None]          # inside the child: the saved parent state
+    relaxed = [False]       # the parent's first iteration after the child: the child's changes arrive too
+    wdpath = {}             # canonical wd -> path index uv_fs_event_getpath reports for its handles
     cbcount = [0]
     exists = {0, 1, 2, 3, 4, 5, 6, 9}
     dirs = set(FE_DIRS0)
@@ -760,6 +798,46 @@ def fe_walk(case, raw):
         out.append(t)
         return int(t[1:])
 
+    def observe(after_fork=None):
+        """o<active>:<path index>:<wd>, per handle; after_fork: the handles as they were in the parent"""
+        t = peek()
+        if t is None or t[0] != "o":
+            errs.append("trace out of step: expected an observation, got %r" % t)
+            return
+        pos[0] += 1
+        ents = [e for e in t[1:].split(",") if e]
+        if len(ents) != len(H):
+            errs.append("observation lists %d handles, %d exist" % (len(ents), len(H)))
+            return
+        co = "o"
+        for j, e in enumerate(ents):
+            a, pid, wd = [int(v) for v in e.split(":")]
+            co += "%d:%s," % (a, nm(fe_base(pid)) if a and pid >= 0 else "-")
+            if after_fork is not None:
+                was = after_fork[j]
+                if was["active"] and not a:
+                    errs.append("h%d was watching %s before fork(); after uv_loop_fork() in the child it is not "
+                                "active any more (uv_loop_fork returned 0)" % (j, FE_REL[was["gp"]] if was["gp"] is not None else "?"))
+                    continue
+                if not was["active"] and a:
+                    errs.append("h%d is active in the child although it was stopped in the parent" % j)
+                    continue
+                if a:
+                    if pid != was["gp"]:
+                        errs.append("h%d: uv_fs_event_getpath gives %s in the child, %s in the parent"
+                                    % (j, FE_REL[pid] if pid >= 0 else "nothing", FE_REL[was["gp"]]))
+                    nwd = cwd(wd)
+                    H[j]["wd"] = nwd
+                    live[nwd] = True
+                    wdpath.setdefault(nwd, pid)
+            else:
+                if bool(a) != bool(H[j]["active"]):
+                    errs.append("uv_is_active(h%d) = %d, expected %d" % (j, a, H[j]["active"]))
+                elif a and pid != wdpath.get(H[j]["wd"]):
+                    errs.append("uv_fs_event_getpath(h%d) = %s, the watcher list was made for %s"
+                                % (j, FE_REL[pid] if pid >= 0 else "nothing", FE_REL[wdpath.get(H[j]["wd"], 0)]))
+        out.append(co)
+
     def api(t, sink, in_dispatch):
         k = t[0]
         if k == "I":
@@ -789,9 +867,14 @@ def fe_walk(case, raw):
                     errs.append("uv_fs_event_start returned %d, inotify_add_watch failed with %d" % (r, wd))
             elif r == 0:
                 H[h].update(active=True, path=p, cb=cb, wd=wd, stale=False, ino=inode.get(p))
+                if not live.get(wd):
+                    wdpath[wd] = p
                 live[wd] = True
             else:
                 errs.append("uv_fs_event_start failed with %d" % r)
+        elif k == "O":
+            sink.append("O")
+            observe()
         elif k == "T":
             h = int(t[1:])
             sink.append(t)
@@ -978,9 +1061,12 @@ def fe_walk(case, raw):
                 if k < len(behl):
                     nb = []
                     for o in behl[k]:
-                        if o[0] in "ISTC":
+                        if o[0] in "ISTCO":
                             api(o, nb, True)
-                    mbeh[k] = nb
+                    if child[0] is not None:
+                        cbeh[k] = nb
+                    else:
+                        mbeh[k] = nb
         for h, bit, name, c in exp:
             if h in stopped_during or not H[h]["active"]:
                 continue
@@ -995,7 +1081,7 @@ def fe_walk(case, raw):
                     errs.append("h%d got no callback naming '%s' for the change %s (got %s)" % (h, name, c, g))
         # a single content/attribute change must be reported as UV_CHANGE only
         real = [c for c in changes if c[1] in "wm"]
-        if len(changes) == 1 and len(real) == 1 and exp:
+        if len(changes) == 1 and len(real) == 1 and exp and not relaxed[0]:
             for h, g in got.items():
                 for n, b in g:
                     if b != UV_CHANGE:
@@ -1003,7 +1089,7 @@ def fe_walk(case, raw):
                         errs.append("h%d: the change %s of %s%s is reported with events=%d, not UV_CHANGE"
                                     % (h, real[0], "the directory " if p in dirs else "", FE_REL[p], b))
         # creating a subdirectory is a rename-class event only (IN_CREATE|IN_ISDIR)
-        if len(changes) == 1 and changes[0][1] == "d" and exp:
+        if len(changes) == 1 and changes[0][1] == "d" and exp and not relaxed[0]:
             for h, g in got.items():
                 for n, b in g:
                     if b != UV_RENAME:
@@ -1014,9 +1100,12 @@ def fe_walk(case, raw):
             errs.append("trace out of step at the end of an iteration: %r" % peek())
         check_watches("after the iteration")
 
+    import copy
     changes = []
     for t in top:
-        if t[0] in "ISTC":
+        if errs and len(errs) > 20:
+            break
+        if t[0] in "ISTCO":
             api(t, mtop, False)
             check_watches("after %s" % t)
         elif t[0] == "X":
@@ -1028,6 +1117,67 @@ def fe_walk(case, raw):
                 errs.append("trace out of step at R")
             dispatch(changes, mtop)
             changes = []
+            relaxed[0] = False
+        elif t == "Y":
+            if child[0] is not None:
+                continue
+            if peek() is not None and peek()[0] == "!":
+                errs.append("the child process died (wait status %s)" % peek()[1:])
+                break
+            # in the child: the old lists are freed (inotify_rm_watch on the closed descriptor), every
+            # handle is started again on a new inotify instance, then uv_loop_fork returns
+            while peek() is not None and peek()[0] == "m":
+                wd = cwd(toks[pos[0]][1:])
+                pos[0] += 1
+                out.append("m%d" % wd)
+            before = copy.deepcopy(H)
+            for x in before:
+                x["gp"] = wdpath.get(x["wd"]) if x["active"] else None
+            saved = (copy.deepcopy(H), dict(wdmap), dict(live), dict(wdpath), cbcount[0])
+            wdmap.clear()
+            live.clear()
+            wdpath.clear()
+            wds = []
+            while peek() is not None and peek()[0] == "w":
+                wds.append(cwd(toks[pos[0]][1:]))
+                pos[0] += 1
+            y = peek()
+            if y is None or y[0] != "y":
+                errs.append("no uv_loop_fork result in the child: %r" % y)
+                break
+            pos[0] += 1
+            out.append("r" + y[1:])
+            mtop.append("Y" + ",".join(str(w) for w in wds))
+            if int(y[1:]) != 0:
+                errs.append("uv_loop_fork returned %s in the child" % y[1:])
+            nact = sum(1 for x in before if x["active"])
+            if len(wds) != nact and int(y[1:]) == 0:
+                errs.append("uv_loop_fork restarted %d handle(s), %d were active before fork()" % (len(wds), nact))
+            child[0] = saved
+            mtop.append("O")
+            observe(after_fork=before)
+            changes = []
+        elif t == "P":
+            if child[0] is None:
+                continue
+            if peek() == "P":
+                pos[0] += 1
+            else:
+                errs.append("the child did not reach the end of its part of the script: %r" % peek())
+            out.append("P")
+            mtop.append("P")
+            sH, swd, slive, swp, scb = child[0]
+            H[:] = sH
+            wdmap.clear(); wdmap.update(swd)
+            live.clear(); live.update(slive)
+            wdpath.clear(); wdpath.update(swp)
+            cbcount[0] = scb
+            child[0] = None
+            changes = []
+            relaxed[0] = True
+            if peek() is not None and peek()[0] == "!":
+                errs.append("the child process died (wait status %s)" % peek()[1:])
+                pos[0] += 1
         elif t == "Z":
             for h, x in enumerate(H):
                 if not x["closing"]:
@@ -1040,16 +1190,25 @@ def fe_walk(case, raw):
                 errs.append("no uv_loop_close result")
             else:
                 pos[0] += 1
-                if int(z[1:]) != 0:
-                    errs.append("uv_loop_close returned %s after every handle was closed" % z[1:])
+                zrc, zlive = (z[1:].split(",") + ["0"])[:2]
+                if int(zrc) != 0:
+                    errs.append("uv_loop_close returned %s after every handle was closed" % zrc)
+                elif int(zlive) != 0:
+                    errs.append("%s allocation(s) of libuv outstanding after uv_loop_close%s"
+                                % (zlive, " in the child after uv_loop_fork" if child[0] is not None else ""))
                 if any(live.values()):
                     errs.append("a kernel watch is left behind at uv_loop_close")
     if pos[0] != len(toks) and not errs:
         errs.append("trace has tokens the script does not account for (first: %s)" % toks[pos[0]])
-    for k in range(cbcount[0], len(mbeh)):          # behaviours that never ran
-        mbeh[k] = [("S%s,%d,0" % (",".join(o[1:].split(",")[:2]), nm(fe_base(int(o[1:].split(",")[2]))))
-                    if o[0] == "S" else o) for o in mbeh[k] if o[0] in "ISTC"]
-    mi = "%s ; %s" % (" ".join(mtop), " | ".join(" ".join(b) for b in mbeh))
+    def unrun(b):
+        return [("S%s,%d,0" % (",".join(o[1:].split(",")[:2]), nm(fe_base(int(o[1:].split(",")[2]))))
+                 if o[0] == "S" else o) for o in b if o[0] in "ISTCO"]
+    for k in range(len(mbeh)):          # behaviours that never ran in the parent
+        if any(o[0] == "S" and o.count(",") == 2 for o in mbeh[k]):
+            mbeh[k] = unrun(mbeh[k])
+    cb = [cbeh[k] if k in cbeh else unrun(behl[k]) for k in range(len(behl))]
+    mi = "%s ; %s ; %s" % (" ".join(mtop), " | ".join(" ".join(b) for b in mbeh),
+                           " | ".join(" ".join(b) for b in cb))
     return mi, " ".join(out), errs
 
 
